@@ -586,7 +586,9 @@ func conc(c *driver.Ctx, sc cscen) (func(), func(*vs.Result) *driver.Fail) {
 			f.Detail = sc.name + "\n" + strings.Join(w.log, "\n") + "\n" + f.Detail
 			return f
 		}
-		d := func() string { return fmt.Sprintf("%s A=%s cache=%s results=%v\n%s", sc.name, sc.modeA, sc.cache, results, strings.Join(w.log, "\n")) }
+		d := func() string {
+			return fmt.Sprintf("%s A=%s cache=%s results=%v\n%s", sc.name, sc.modeA, sc.cache, results, strings.Join(w.log, "\n"))
+		}
 		if len(w.fails) > 0 {
 			return &driver.Fail{Sig: sig(w.fails[0]), Detail: d() + "\n" + strings.Join(w.fails, "\n")}
 		}
